@@ -78,9 +78,9 @@ Print Assumptions C11_key_injective.
     the guard of F2 (F3) is not needed *)
 Theorem C11_cache_transparent : forall fx H w h,
   (forall x y, H x = H y -> x = y) -> wf_history h ->
-  (fx2 fx = true \/ g_F2 h = false) -> (fx3 fx = true \/ g_F3 h = false) ->
-  (fx10 fx = true \/ g_F10 h = false) ->
-  g_F4 fx H h = false -> g_F6 h = false -> g_F7 h = false ->
+  (fx2 fx = true \/ g_F2 fx H h = false) -> (fx3 fx = true \/ g_F3 fx H h = false) ->
+  (fx10 fx = true \/ g_F10 fx H h = false) ->
+  g_F4 fx H h = false -> g_F6 fx H h = false -> g_F7 fx H h = false ->
   map sr_out (run_cached fx H w [] h) = map fst (run_fresh w h).
 Proof. exact cache_transparent. Qed.
 Print Assumptions C11_cache_transparent.
@@ -89,7 +89,7 @@ Print Assumptions C11_cache_transparent.
     validated under a different rule's policy any more, whatever the instances *)
 Theorem C11_cache_transparent_repaired : forall H w h,
   (forall x y, H x = H y -> x = y) -> wf_history h ->
-  g_F4 fx_all H h = false -> g_F6 h = false -> g_F7 h = false ->
+  g_F4 fx_all H h = false -> g_F6 fx_all H h = false -> g_F7 fx_all H h = false ->
   map sr_out (run_cached fx_all H w [] h) = map fst (run_fresh w h).
 Proof. exact cache_transparent_repaired. Qed.
 Print Assumptions C11_cache_transparent_repaired.
@@ -98,10 +98,10 @@ Print Assumptions C11_cache_transparent_repaired.
     two subjects, two values and a repeated request *)
 Theorem C11_nonvacuous :
   wf_history ok_history /\
-  g_F1 ok_history (Some 0) = false /\ g_F2 ok_history = false /\ g_F3 ok_history = false /\
-  g_F10 ok_history = false /\
+  g_F1 ok_history (Some 0) = false /\
+  (forall fx H, g_F2 fx H ok_history = false /\ g_F3 fx H ok_history = false /\ g_F10 fx H ok_history = false /\
+                g_F6 fx H ok_history = false /\ g_F7 fx H ok_history = false) /\
   (forall fx H, (forall x, String.length (H x) = 32) -> g_F4 fx H ok_history = false) /\
-  g_F6 ok_history = false /\ g_F7 ok_history = false /\
   (exists a b, nth_error ok_history 0 = Some a /\ nth_error ok_history 2 = Some b /\ same_request a b = true /\
                enabled (st_inst a) = true /\ order_free (st_inst a) = true /\
                exists r, fresh_of w_world a = OAllow r).
@@ -150,13 +150,13 @@ Print Assumptions C11_identical_requests_hit.
 (** the recorded findings, each with a concrete two-request history on which
     the cache changes the decision, for every SHA-256 *)
 Theorem C11_F2_refuted :
-  exists w a b, g_F2 [a; b] = true /\ step_orders_valid a /\ step_orders_valid b /\
+  exists w a b, (forall H, g_F2 fx_none H [a; b] = true) /\ step_orders_valid a /\ step_orders_valid b /\
     forall H, map sr_out (run_cached fx_none H w [] [a; b]) <> map fst (run_fresh w [a; b]).
 Proof. exact F2_refuted. Qed.
 Print Assumptions C11_F2_refuted.
 
 Theorem C11_F3_refuted :
-  exists w a b, g_F3 [a; b] = true /\ step_orders_valid a /\ step_orders_valid b /\
+  exists w a b, (forall H, g_F3 fx_none H [a; b] = true) /\ step_orders_valid a /\ step_orders_valid b /\
     forall H, map sr_out (run_cached fx_none H w [] [a; b]) <> map fst (run_fresh w [a; b]).
 Proof. exact F3_refuted. Qed.
 Print Assumptions C11_F3_refuted.
@@ -168,19 +168,19 @@ Proof. exact F4_history_refuted. Qed.
 Print Assumptions C11_F4_history_refuted.
 
 Theorem C11_F6_refuted :
-  exists w a b, g_F6 [a; b] = true /\ step_orders_valid a /\ step_orders_valid b /\
+  exists w a b, (forall H, g_F6 fx_none H [a; b] = true) /\ step_orders_valid a /\ step_orders_valid b /\
     forall H, map sr_out (run_cached fx_none H w [] [a; b]) <> map fst (run_fresh w [a; b]).
 Proof. exact F6_refuted. Qed.
 Print Assumptions C11_F6_refuted.
 
 Theorem C11_F10_refuted :
-  exists w a b, g_F10 [a; b] = true /\ step_orders_valid a /\ step_orders_valid b /\
+  exists w a b, (forall H, g_F10 fx_now H [a; b] = true) /\ step_orders_valid a /\ step_orders_valid b /\
     forall H, map sr_out (run_cached fx_now H w [] [a; b]) <> map fst (run_fresh w [a; b]).
 Proof. exact F10_refuted. Qed.
 Print Assumptions C11_F10_refuted.
 
 Theorem C11_F7_refuted :
-  exists w a b, g_F7 [a; b] = true /\ step_orders_valid a /\ step_orders_valid b /\
+  exists w a b, (forall H, g_F7 fx_none H [a; b] = true) /\ step_orders_valid a /\ step_orders_valid b /\
     forall H, map sr_out (run_cached fx_none H w [] [a; b]) <> map fst (run_fresh w [a; b]).
 Proof. exact F7_refuted. Qed.
 Print Assumptions C11_F7_refuted.
